@@ -46,7 +46,12 @@ def _steps(func, var):
             continue
         if isinstance(st, (ast.Assert, ast.Return)):
             if isinstance(st, ast.Return) and st.value is not None and norm.canon(st.value) != cur:
-                out.append(("bad", "returns %s, not the running value %s" % (norm.canon(st.value), cur)))
+                # `return cast(x)` is `x = cast(x); return x` (the load-time normal form N14 writes it that way)
+                before = len(out)
+                op_of(ast.copy_location(ast.Assign(targets=[ast.Name(id="<ret>", ctx=ast.Store())], value=st.value), st), None)
+                if not (len(out) == before + 1 and out[-1][0] == "cast"):
+                    del out[before:]
+                    out.append(("bad", "returns %s, not the running value %s" % (norm.canon(st.value), cur)))
             continue
         if isinstance(st, ast.If) and not st.orelse:
             cond = subst(st.test)
